@@ -2,6 +2,7 @@ package gen
 
 import (
 	"fmt"
+	"strings"
 
 	"pgregory.net/rapid"
 
@@ -109,9 +110,20 @@ func litFor(rt *rapid.T, t *model.Table, ci int, direct bool) model.Val {
 	return Value(rt, "lit", t.Cols[ci].Type, false, true, 8)
 }
 
+// isTextSafe says whether s can be written between single quotes: no control
+// characters, quotes and backslashes only as part of a backslash unit.
 func isTextSafe(s string) bool {
-	for _, r := range s {
-		if r == '\'' || r == '\\' || r < 0x20 || r == 0x7f || r == 0xFFFD {
+	rs := []rune(s)
+	for i := 0; i < len(rs); i++ {
+		r := rs[i]
+		if r == '\\' {
+			if i+1 >= len(rs) || !strings.ContainsRune(`'\"nt`, rs[i+1]) {
+				return false
+			}
+			i++
+			continue
+		}
+		if r == '\'' || r < 0x20 || r == 0x7f || r == 0xFFFD {
 			return false
 		}
 	}
